@@ -62,6 +62,7 @@ type LetDef struct {
 }
 
 type ContractFile struct {
+	Globals map[string]*LetDef
 	Funcs map[string]*FuncContract
 	Order []string
 	Files []string
@@ -82,7 +83,8 @@ func splitNames(s string) []string {
 }
 
 func parseContracts(paths ...string) (*ContractFile, error) {
-	cf := &ContractFile{Funcs: map[string]*FuncContract{}}
+	cf := &ContractFile{Funcs: map[string]*FuncContract{}, Globals: map[string]*LetDef{}}
+	theContracts = cf
 	for _, path := range paths {
 		f, err := os.Open(path)
 		if err != nil {
@@ -162,6 +164,14 @@ func (cf *ContractFile) directive(cur **FuncContract, pkg, body, path string, ln
 		cf.Funcs[key] = fc
 		cf.Order = append(cf.Order, key)
 		*cur = fc
+		return nil
+	}
+	if strings.HasPrefix(body, "global let ") {
+		ld, err := parseLet(strings.TrimPrefix(body, "global let "))
+		if err != nil {
+			return errf("%v", err)
+		}
+		cf.Globals[ld.Name] = ld
 		return nil
 	}
 	fc := *cur
@@ -300,31 +310,10 @@ func (cf *ContractFile) directive(cur **FuncContract, pkg, body, path string, ln
 	case "props":
 		fc.Props = append(fc.Props, splitNames(rest)...)
 	case "let":
-		// let name(params) = expr    |   let name = expr
-		i := strings.Index(rest, "=")
-		if i < 0 {
-			return errf("bad let")
-		}
-		lhs, rhs := strings.TrimSpace(rest[:i]), strings.TrimSpace(rest[i+1:])
-		// avoid splitting on == : find first '=' that is not part of ==, <=, >=, !=
-		for k := 0; k < len(rest); k++ {
-			if rest[k] == '=' && (k+1 >= len(rest) || rest[k+1] != '=') && (k == 0 || !strings.ContainsRune("=<>!", rune(rest[k-1]))) {
-				lhs, rhs = strings.TrimSpace(rest[:k]), strings.TrimSpace(rest[k+1:])
-				break
-			}
-		}
-		ld := &LetDef{Text: rhs}
-		if j := strings.Index(lhs, "("); j > 0 {
-			ld.Name = strings.TrimSpace(lhs[:j])
-			ld.Params = splitNames(strings.TrimSuffix(lhs[j+1:], ")"))
-		} else {
-			ld.Name = lhs
-		}
-		e, err := parseSpecExpr(rhs)
+		ld, err := parseLet(rest)
 		if err != nil {
-			return errf("cannot parse let %q: %v", rhs, err)
+			return errf("%v", err)
 		}
-		ld.Expr = e
 		fc.Lets = append(fc.Lets, ld)
 	case "note":
 		fc.Notes = append(fc.Notes, rest)
@@ -481,4 +470,33 @@ func matchLabel(pat, name string) bool {
 		return strings.HasPrefix(name, strings.TrimSuffix(pat, "*"))
 	}
 	return pat == name
+}
+
+var theContracts *ContractFile
+
+// parseLet: name(params) = expr   |   name = expr
+func parseLet(rest string) (*LetDef, error) {
+	lhs, rhs := "", ""
+	for k := 0; k < len(rest); k++ {
+		if rest[k] == '=' && (k+1 >= len(rest) || rest[k+1] != '=') && (k == 0 || !strings.ContainsRune("=<>!", rune(rest[k-1]))) {
+			lhs, rhs = strings.TrimSpace(rest[:k]), strings.TrimSpace(rest[k+1:])
+			break
+		}
+	}
+	if lhs == "" {
+		return nil, fmt.Errorf("bad let %q", rest)
+	}
+	ld := &LetDef{Text: rhs}
+	if j := strings.Index(lhs, "("); j > 0 {
+		ld.Name = strings.TrimSpace(lhs[:j])
+		ld.Params = splitNames(strings.TrimSuffix(lhs[j+1:], ")"))
+	} else {
+		ld.Name = lhs
+	}
+	e, err := parseSpecExpr(rhs)
+	if err != nil {
+		return nil, fmt.Errorf("cannot parse let %q: %v", rhs, err)
+	}
+	ld.Expr = e
+	return ld, nil
 }
